@@ -321,6 +321,8 @@ def call_numpy(it, tail, args, kwargs, env, node, chain):
     if tail == "searchsorted":
         side = a[2] if len(a) > 2 else kw(kwargs, "side", "left")
         return op("searchsorted", t[0], t[1], to_term(side))
+    if tail == "take" and len(t) >= 2 and kw(kwargs, "axis") is None and len(t) == 2:
+        return term_getitem(it, t[0], t[1], env, node)      # np.take(a, i) on a vector is a[i]
     if tail == "concatenate":
         seq = a[0]
         axis = a[1] if len(a) > 1 else kw(kwargs, "axis", num(0))
@@ -474,6 +476,8 @@ def _dim_items(args, kwargs):
 
 def call_term_method(it, recv, name, args, kwargs, env, node):
     t = [to_term(a) for a in args]
+    if name == "copy" and kw(kwargs, "data") is not None:
+        return to_term(kw(kwargs, "data"))       # DataArray.copy(data=v): same labels, the values are v
     if name in IDENTITY_METHODS:
         if name == "astype" and t and T.str_of(t[0]) in ("float64", "float", "float32", "double") and fname(recv) == "datetime64" \
                 and hasattr(it, "type_hints") and recv not in it.type_hints:
@@ -804,6 +808,8 @@ def index_slab(it, val, rest):
 def canon_index(ti):
     """x[np.nonzero(m)], x[np.nonzero(m)[0]], x[np.where(m)[0]], x[np.flatnonzero(m)] select what the boolean mask x[m] selects
     (in the same order): positions and mask are one index."""
+    if isinstance(ti, sp.Tuple) and any(fname(x) in ("nonzero", "flatnonzero", "ext_numpy_flatnonzero") for x in ti.args):
+        return sp.Tuple(*[canon_index(x) for x in ti.args])
     f = fname(ti)
     if f in ("nonzero", "flatnonzero", "ext_numpy_flatnonzero") and len(ti.args) == 1:
         return ti.args[0]
@@ -812,8 +818,16 @@ def canon_index(ti):
     return ti
 
 
+_BOOLEAN_HEADS = ("and_", "or_", "not_", "lt", "ge", "eq", "ne", "isnull", "notnull", "isfinite", "isinf")
+
+
 def term_setitem(it, base, idx, value, env, node):
     ti = canon_index(to_term(idx))
+    tv = to_term(value)
+    # x[..., mask] = c with a boolean mask over the trailing axis and a scalar c: x where the mask does not hold, c where it does
+    if isinstance(ti, sp.Tuple) and len(ti.args) == 2 and ti.args[0] == T.ELLIPSIS_T and fname(ti.args[1]) in _BOOLEAN_HEADS \
+            and (tv.is_number or is_scalar_term(tv)) and fname(to_term(base)) not in ("empty", "zeros"):
+        return make_where(T.NOT(ti.args[1]), to_term(base), tv)
     if fname(base) == "store" and base.args[1] == ti:
         base = base.args[0]  # overwriting the element just written
     return op("store", base, ti, to_term(value))
